@@ -41,6 +41,9 @@ Lemma Stat_add_0_l a : Stat_seq (Stat_add Stat_zero a) a.
 Proof. unfold Stat_seq, Stat_add, Stat_zero. fieldwise. Qed.
 Lemma Stat_iadd_eq_add a b : Stat_seq (Stat_iadd a b) (Stat_add a b).
 Proof. unfold Stat_seq, Stat_iadd, Stat_add. fieldwise. Qed.
+(* `s += s`: the operand is the object being updated, so every read of it sees the writes made so far *)
+Lemma Stat_iadd_self_eq_add a : Stat_seq (Stat_iadd_self a) (Stat_add a a).
+Proof. unfold Stat_seq, Stat_iadd_self, Stat_add. fieldwise. Qed.
 
 Lemma Stat_fd_multiplicative a b :
   1 + (1#100) * Stat_final_damage_multiplier (Stat_add a b)
@@ -211,6 +214,8 @@ Lemma ActionStat_add_0_l a : ActionStat_seq (ActionStat_add ActionStat_zero a) a
 Proof. unfold ActionStat_seq, ActionStat_add, ActionStat_zero. fieldwise. Qed.
 Lemma ActionStat_iadd_eq_add a b : ActionStat_seq (ActionStat_iadd a b) (ActionStat_add a b).
 Proof. unfold ActionStat_seq, ActionStat_iadd, ActionStat_add. fieldwise. Qed.
+Lemma ActionStat_iadd_self_eq_add a : ActionStat_seq (ActionStat_iadd_self a) (ActionStat_add a a).
+Proof. unfold ActionStat_seq, ActionStat_iadd_self, ActionStat_add. fieldwise. Qed.
 Lemma ActionStat_add_additive a b :
   Forall (fun f => f (ActionStat_add a b) == f a + f b) ActionStat_fields.
 Proof. unfold ActionStat_fields, ActionStat_add. forall_fields. Qed.
